@@ -7,7 +7,9 @@ Part 1  `CpqBatch`: the sequential core `handle_operations(op_list)` of
         from the root, hole method), the two passes over the operation list (first pass: pushes are
         appended, pops take `data.back()` when `mark < size ∧ data[0] < data.back()` or are deferred on a
         stack; second pass: deferred pops fail on empty data / take data.back() / take the top + reheap),
-        final `heapify`.  Priorities are `Nat`, the comparator is `<` (std::less).
+        final `heapify`.  Elements are `Elem` (identity + the comparator's priority class `key`);
+        `my_compare(a, b)` is `a.key < b.key` — an arbitrary strict weak order with arbitrary ties.
+        The four guards of `handle_operations` are re-translated from the source text on every run.
         A push whose element copy throws gets FAILED and leaves `data` untouched (std::vector::push_back
         has the strong guarantee), everything else continues.
 Part 2  `Agg`: the combining aggregator of include/oneapi/tbb/detail/_aggregator.h:65-133 as an
@@ -22,31 +24,44 @@ namespace TbbVerif.C13
 
 /-! ## Part 1: the sequential batch handler -/
 
+/-- An element of the queue: an identity `id` (what the caller sees, what is stored in `data`) and the
+priority class `key` the comparator sees: `my_compare(a, b) = (a.key < b.key)`.  Distinct elements with equal
+keys are *ties* of the comparator.  Every strict weak order on finitely many elements has this form
+(`swo_has_rank` in Proofs/C13/Order.lean), so `key` is the "arbitrary total preorder given as a parameter";
+`std::less<int>` is `key = id`. -/
+structure Elem where
+  key : Nat
+  id : Nat
+deriving Repr, DecidableEq, Inhabited
+
+/-- `my_compare(a, b)` -/
+def ltE (a b : Elem) : Bool := decide (a.key < b.key)
+
 /-- `data[i]`.  Total for convenience; every read the code performs is in bounds (`mark ≤ size`). -/
-def get (d : List Nat) (i : Nat) : Nat := d[i]?.getD 0
+def get (d : List Elem) (i : Nat) : Elem := d[i]?.getD ⟨0, 0⟩
 
 /-- `data.back()` -/
-def back (d : List Nat) : Nat := get d (d.length - 1)
+def back (d : List Elem) : Elem := get d (d.length - 1)
 
 /-- The queue's sequential state: `data` (std::vector) and `mark`. -/
 structure Heap where
-  data : List Nat
+  data : List Elem
   mark : Nat
 deriving Repr, DecidableEq, Inhabited
 
 /-- Inner `do … while(cur_pos)` loop of `heapify` followed by `data[cur_pos] = to_place`
 (concurrent_priority_queue.h:350-357), entered with `cur ≥ 1`:
 `parent = (cur-1)>>1; if (!compare(data[parent], x)) break; data[cur] = data[parent]; cur = parent`. -/
-def siftUp (d : List Nat) (x : Nat) (cur : Nat) : List Nat :=
+def siftUp (d : List Elem) (x : Elem) (cur : Nat) : List Elem :=
   if cur = 0 then d.set 0 x
   else
-    if get d ((cur - 1) / 2) < x then siftUp (d.set cur (get d ((cur - 1) / 2))) x ((cur - 1) / 2)
+    if (get d ((cur - 1) / 2)).key < x.key then siftUp (d.set cur (get d ((cur - 1) / 2))) x ((cur - 1) / 2)
     else d.set cur x
 termination_by cur
 decreasing_by omega
 
 /-- `n` iterations of `for (; mark < data.size(); ++mark)` of `heapify`. -/
-def heapifyN : Nat → List Nat → Nat → List Nat
+def heapifyN : Nat → List Elem → Nat → List Elem
   | 0, d, _ => d
   | n + 1, d, m => heapifyN n (siftUp d (get d m) m) (m + 1)
 
@@ -56,20 +71,20 @@ def heapify (h : Heap) : Heap :=
   { data := heapifyN (h.data.length - m0) h.data m0, mark := max m0 h.data.length }
 
 /-- `target`: the higher-priority child (`child+1` only if it is inside the heap and strictly greater). -/
-def pickChild (d : List Nat) (mark child : Nat) : Nat :=
-  if child + 1 < mark ∧ get d child < get d (child + 1) then child + 1 else child
+def pickChild (d : List Elem) (mark child : Nat) : Nat :=
+  if child + 1 < mark ∧ (get d child).key < (get d (child + 1)).key then child + 1 else child
 
-theorem pickChild_ge (d : List Nat) (mark child : Nat) : child ≤ pickChild d mark child := by
+theorem pickChild_ge (d : List Elem) (mark child : Nat) : child ≤ pickChild d mark child := by
   unfold pickChild; split <;> omega
 
-theorem pickChild_lt (d : List Nat) (mark child : Nat) (h : child < mark) : pickChild d mark child < mark := by
+theorem pickChild_lt (d : List Elem) (mark child : Nat) (h : child < mark) : pickChild d mark child < mark := by
   unfold pickChild; split <;> omega
 
 /-- The `while (child < mark)` loop of `reheap` (concurrent_priority_queue.h:366-376); `x = data.back()`.
 Returns the data and the final `cur_pos`. -/
-def siftDown (d : List Nat) (mark x cur : Nat) : List Nat × Nat :=
+def siftDown (d : List Elem) (mark : Nat) (x : Elem) (cur : Nat) : List Elem × Nat :=
   if h : 2 * cur + 1 < mark then
-    if get d (pickChild d mark (2 * cur + 1)) < x then (d, cur)
+    if (get d (pickChild d mark (2 * cur + 1))).key < x.key then (d, cur)
     else siftDown (d.set cur (get d (pickChild d mark (2 * cur + 1)))) mark x (pickChild d mark (2 * cur + 1))
   else (d, cur)
 termination_by mark - cur
@@ -89,7 +104,7 @@ def reheap (h : Heap) : Heap :=
 /-- An operation of a batch: `push x` (with `throws = true` when copying the element throws) or `try_pop`
 (with `throws = true` when assigning the popped element to the caller's object throws). -/
 inductive Op where
-  | push (x : Nat) (throws : Bool)
+  | push (x : Elem) (throws : Bool)
   | pop (throws : Bool)
 deriving Repr, DecidableEq, Inhabited
 
@@ -99,7 +114,7 @@ caller's own operation). -/
 inductive Res where
   | pushOk
   | pushFailed
-  | popOk (v : Nat)
+  | popOk (v : Elem)
   | popFailed
   | exc (own : Bool)
 deriving Repr, DecidableEq, Inhabited
@@ -116,8 +131,18 @@ deriving Repr, DecidableEq, Inhabited
 inside a try block whose handler stores FAILED and continues with the next operation?  In the pinned tree: no. -/
 abbrev guarded : Bool := Generated.C13.popAssignGuarded
 
-/-- `mark < data.size() && my_compare(data[0], data.back())` -/
-def shortcut (h : Heap) : Bool := h.mark < h.data.length && get h.data 0 < back h.data
+/-- the guard of the pop shortcut in the FIRST pass, `mark < data.size() && my_compare(data[0], data.back())`,
+as translated from the source text on every run (Generated/C13.lean) -/
+def shortcut (h : Heap) : Bool := Generated.C13.shortcutP1 ltE h.mark h.data.length (get h.data) (back h.data)
+
+/-- the same guard in the SECOND pass (a separate occurrence in the source, translated separately) -/
+def shortcut2 (h : Heap) : Bool := Generated.C13.shortcutP2 ltE h.mark h.data.length (get h.data) (back h.data)
+
+/-- `data.empty()` in the second pass (translated from the source) -/
+def isEmpty2 (h : Heap) : Bool := Generated.C13.emptyP2 h.mark h.data.length
+
+/-- `mark < data.size()` guarding the final `heapify()` (translated from the source) -/
+def needHeapify (h : Heap) : Bool := Generated.C13.finishGuard h.mark h.data.length
 
 /-- result of the first pass: state, statuses set in this pass (in order), the deferred pops (index, does its
 assignment throw) in the order in which the second pass will visit them (`pop_list` is a stack), and
@@ -162,7 +187,7 @@ structure P2 where
 def pass2 (h : Heap) : List (Nat × Bool) → P2
   | [] => ⟨h, [], none⟩
   | (i, thr) :: rest =>
-    if h.data.length = 0 then
+    if isEmpty2 h then
       let r := pass2 h rest
       { r with log := ⟨i, .pop thr, .popFailed⟩ :: r.log }
     else if thr then
@@ -170,7 +195,7 @@ def pass2 (h : Heap) : List (Nat × Bool) → P2
         let r := pass2 h rest
         { r with log := ⟨i, .pop thr, .exc true⟩ :: r.log }
       else ⟨h, [], some i⟩
-    else if shortcut h then
+    else if shortcut2 h then
       let r := pass2 { h with data := h.data.dropLast } rest
       { r with log := ⟨i, .pop thr, .popOk (back h.data)⟩ :: r.log }
     else
@@ -178,7 +203,7 @@ def pass2 (h : Heap) : List (Nat × Bool) → P2
       { r with log := ⟨i, .pop thr, .popOk (get h.data 0)⟩ :: r.log }
 
 /-- `if (mark < data.size()) heapify();` -/
-def finish (h : Heap) : Heap := if h.mark < h.data.length then heapify h else h
+def finish (h : Heap) : Heap := if needHeapify h then heapify h else h
 
 /-- outcome of `handle_operations`: final state, status log, and `abort = some i` when it was left by the
 exception of pop `i`'s element assignment (then the remaining operations have no status, the tail is not
@@ -213,19 +238,93 @@ def resultOf (log : List Ev) (i : Nat) : Option Res := (log.find? (·.idx == i))
 
 /-- One operation of the sequential spec on the contents `s` (a list read as a multiset): a non-throwing
 push inserts and succeeds, a throwing push fails and changes nothing, a pop on non-empty contents returns a
-maximal element and removes one copy of it, a pop fails exactly on empty contents; a pop whose element
+maximal element w.r.t. the comparator's preorder (no element has a strictly greater `key`; ties in any order)
+and removes one copy of it, a pop fails exactly on empty contents; a pop whose element
 assignment throws on non-empty contents ends with that exception at its own caller and changes nothing. -/
-def specStep (s : List Nat) : Op × Res → Option (List Nat)
+def specStep (s : List Elem) : Op × Res → Option (List Elem)
   | (.push x false, .pushOk) => some (x :: s)
   | (.push _ true, .pushFailed) => some s
-  | (.pop false, .popOk v) => if v ∈ s ∧ ∀ y ∈ s, y ≤ v then some (s.erase v) else none
+  | (.pop false, .popOk v) => if v ∈ s ∧ ∀ y ∈ s, y.key ≤ v.key then some (s.erase v) else none
   | (.pop _, .popFailed) => if s = [] then some s else none
   | (.pop true, .exc true) => if s = [] then none else some s   -- the assignment's exception reaches its own caller; nothing is lost
   | _ => none
 
-def specRun (s : List Nat) : List (Op × Res) → Option (List Nat)
+def specRun (s : List Elem) : List (Op × Res) → Option (List Elem)
   | [] => some s
   | e :: es => (specStep s e).bind (fun s' => specRun s' es)
+
+/-! ### the linearization order of one batch, as an executable function
+
+All operations of one batch are pairwise concurrent (each was invoked before the batch was grabbed and returns
+after), so any order of them respects real time.  The order in which the handler *serves* them is NOT a legal
+sequential order in general (heap `[3]`, batch `push 10, push 5, try_pop`: the pop is served last and returns 5
+through the `data.back()` shortcut while 10 is in the vector).  The order below is:
+
+* the spec's contents are always the heap part `data[0, mark)`; an element of the tail `data[mark, size)` is a
+  push that is *not linearized yet*;
+* a pop that takes `data.back()` is placed right after the push of that element;
+* a pop that takes the top is placed where it is served; the tail element that `reheap` then moves into the
+  heap is pushed right after it (with `mark = 0` the "top" is itself a tail element: push, then pop);
+* a failed push/pop is placed where it is served; the pushes still in the tail at the end come last. -/
+
+/-- the heap part `data[0,mark)` -/
+def heapPart (h : Heap) : List Elem := h.data.take h.mark
+/-- pushed, not yet heapified elements `data[mark,size)` -/
+def pend (h : Heap) : List Elem := h.data.drop h.mark
+
+/-- a successful push of `x` as a spec event -/
+def pushEv (x : Elem) : Op × Res := (.push x false, .pushOk)
+def pushes (l : List Elem) : List (Op × Res) := l.map pushEv
+def strip (log : List Ev) : List (Op × Res) := log.map (fun e => (e.op, e.res))
+
+/-- spec events contributed by the first pass -/
+def lin1 (h : Heap) : List (Op × Nat) → List (Op × Res)
+  | [] => []
+  | (.pop thr, _) :: rest =>
+    if shortcut h then
+      if thr then []
+      else pushEv (back h.data) :: (.pop false, .popOk (back h.data)) :: lin1 { h with data := h.data.dropLast } rest
+    else lin1 h rest
+  | (.push x thr, _) :: rest =>
+    if thr then (.push x thr, .pushFailed) :: lin1 h rest
+    else lin1 { h with data := h.data ++ [x] } rest
+
+/-- spec events contributed by the second pass -/
+def lin2 (h : Heap) : List (Nat × Bool) → List (Op × Res)
+  | [] => []
+  | (_, thr) :: rest =>
+    if isEmpty2 h then (.pop thr, .popFailed) :: lin2 h rest
+    else if thr then []
+    else if shortcut2 h then
+      pushEv (back h.data) :: (.pop false, .popOk (back h.data)) :: lin2 { h with data := h.data.dropLast } rest
+    else if h.mark = h.data.length then (.pop false, .popOk (get h.data 0)) :: lin2 (reheap h) rest
+    else if h.mark = 0 then pushEv (get h.data 0) :: (.pop false, .popOk (get h.data 0)) :: lin2 (reheap h) rest
+    else (.pop false, .popOk (get h.data 0)) :: pushEv (back h.data) :: lin2 (reheap h) rest
+
+/-- the linearization of a batch as spec events (operation, result) -/
+def batchLinV (h : Heap) (ops : List (Op × Nat)) : List (Op × Res) :=
+  let r1 := pass1 h ops
+  let r2 := pass2 r1.heap r1.dfr
+  lin1 h ops ++ lin2 r1.heap r1.dfr ++ pushes (pend r2.heap)
+
+/-- take the first logged operation with this (operation, result) out of the pool -/
+def takeEv (v : Op × Res) : List Ev → Option (Ev × List Ev)
+  | [] => none
+  | e :: es => if (e.op, e.res) = v then some (e, es) else (takeEv v es).map (fun p => (p.1, e :: p.2))
+
+/-- attach identities: each spec event gets the first not yet used logged operation with the same operation
+and result (operations of a batch with equal operation and result are interchangeable) -/
+def assignIds : List (Op × Res) → List Ev → Option (List Ev)
+  | [], _ => some []
+  | v :: vs, pool =>
+    match takeEv v pool with
+    | none => none
+    | some (e, pool') => (assignIds vs pool').map (e :: ·)
+
+/-- the linearization of a batch over identified operations: a permutation of the status log
+(`batchLin_spec`, Proofs/C13/Lin.lean) -/
+def batchLin (h : Heap) (ops : List (Op × Nat)) : List Ev :=
+  (assignIds (batchLinV h ops) (handleIdx h ops).log).getD (handleIdx h ops).log
 
 /-! ### line protocol (E-PURE) -/
 
@@ -233,20 +332,32 @@ open Proto in
 def showRes : Res → String
   | .pushOk => "S"
   | .pushFailed => "F"
-  | .popOk v => s!"S:{v}"
+  | .popOk v => s!"S:{v.id}"
   | .popFailed => "F"
   | .exc own => if own then "E" else "X"
+
+/-- an element on the wire: `<key>:<id>`, or `<n>` for key = id = n (`std::less` on the ids) -/
+def parseElem (w : String) : Option Elem :=
+  match w.splitOn ":" with
+  | [n] => (Proto.nat? n).map (fun n => ⟨n, n⟩)
+  | [k, i] => match Proto.nat? k, Proto.nat? i with
+    | some k, some i => some ⟨k, i⟩
+    | _, _ => none
+  | _ => none
+
+def parseElems (ws : List String) : Option (List Elem) := ws.mapM parseElem
 
 open Proto in
 def parseOp (w : String) : Option Op :=
   if w == "o" then some (.pop false)
   else if w == "x" then some (.pop true)
-  else if w.startsWith "p" || w.startsWith "m" then (nat? (w.drop 1).toString).map (fun x => .push x false)
-  else if w.startsWith "t" then (nat? (w.drop 1).toString).map (fun x => .push x true)
+  else if w.startsWith "p" || w.startsWith "m" then (parseElem (w.drop 1).toString).map (fun x => .push x false)
+  else if w.startsWith "t" then (parseElem (w.drop 1).toString).map (fun x => .push x true)
   else none
 
+/-- elements are printed by their ids (the comparator's key is an input, not an output) -/
 def showHeap (h : Heap) : String :=
-  if h.data.isEmpty then s!"{h.mark} |" else s!"{h.mark} | {Proto.showNats h.data}"
+  if h.data.isEmpty then s!"{h.mark} |" else s!"{h.mark} | {Proto.showNats (h.data.map (·.id))}"
 
 /-- split `ws` at every occurrence of `sep` -/
 def splitAt (sep : String) (ws : List String) : List (List String) :=
@@ -273,17 +384,17 @@ open Proto in
 def drive (ws : List String) : String :=
   match ws with
   | "heapify" :: m :: ds =>
-    match nat? m, nats? ds with
+    match nat? m, parseElems ds with
     | some m, some d => if m ≤ d.length then showHeap (heapify ⟨d, m⟩) else "bad-op"
     | _, _ => "bad-op"
   | "reheap" :: m :: ds =>
-    match nat? m, nats? ds with
+    match nat? m, parseElems ds with
     | some m, some d => if m ≤ d.length ∧ 0 < d.length then showHeap (reheap ⟨d, m⟩) else "bad-op"
     | _, _ => "bad-op"
   | "batch" :: rest =>
     match splitAt "|" rest with
     | [ds, os] =>
-      match nats? ds, (splitAt ";" os).mapM (fun b => b.mapM parseOp) with
+      match parseElems ds, (splitAt ";" os).mapM (fun b => b.mapM parseOp) with
       | some d, some bs => " ; ".intercalate (runBatches ⟨d, d.length⟩ bs)
       | _, _ => "bad-op"
     | _ => "bad-op"
@@ -335,7 +446,7 @@ structure Th where
   res : Option (Tid × Nat) := none   -- local `res`
   status : Nat := 0             -- op_data.status (0 = WAIT, 1 = SUCCEEDED, 2 = FAILED)
   next : Option (Tid × Nat) := none  -- op_data.next
-  elem : Option Nat := none     -- `*elem` of a pop: the value the handler moved out
+  elem : Option Elem := none    -- `*elem` of a pop: the value the handler moved out
   eptr : Bool := false          -- (repaired tree) the exception of the element assignment, to be rethrown by try_pop
   rem : List Tid := []          -- handler: nodes of op_list (pass 1) / pop_list (pass 2) still to visit
   dfr : List Tid := []          -- handler: pop_list while pass 1 builds it
@@ -407,7 +518,7 @@ def adv2 (s : St) (t : Tid) : St :=
 def resultOfCall (th : Th) : Res :=
   match th.op with
   | .push _ _ => if th.status = 1 then .pushOk else .pushFailed
-  | .pop _ => if th.status = 1 then .popOk (th.elem.getD 0) else if th.eptr then .exc true else .popFailed
+  | .pop _ => if th.status = 1 then .popOk (th.elem.getD ⟨0, 0⟩) else if th.eptr then .exc true else .popFailed
 
 /-- does assigning the popped element to this operation's `*elem` throw? -/
 def popThrows : Op → Bool
@@ -480,12 +591,12 @@ def aggStep (s : St) (t : Tid) : St :=
     match th.rem with
     | [] => adv2 (s.modTh t (fun x => { x with pc := .p2Adv })) t
     | u :: rest =>
-      if s.heap.data.length = 0 then s.modTh t (fun x => { x with tmp := u, rem := rest, pc := .p2Status, st := 2 })
+      if isEmpty2 s.heap then s.modTh t (fun x => { x with tmp := u, rem := rest, pc := .p2Status, st := 2 })
       else if popThrows (s.ths u).op then
         if guarded then
           (s.modTh u (fun x => { x with eptr := true })).modTh t (fun x => { x with tmp := u, rem := rest, pc := .p2Status, st := 2 })
         else unwind s t u
-      else if shortcut s.heap then
+      else if shortcut2 s.heap then
         (s.modTh u (fun x => { x with elem := some (back s.heap.data) })).modTh t
           (fun x => { x with tmp := u, rem := rest, pc := .p2SzLd, st := 1 })
       else
@@ -496,7 +607,7 @@ def aggStep (s : St) (t : Tid) : St :=
   | .p2Status =>
     let s1 : St := { s.modTh th.tmp (fun x => { x with status := th.st, nSet := x.nSet + 1 }) with
       unset := s.unset.erase th.tmp,
-      heap := if th.st = 1 then (if shortcut s.heap then { s.heap with data := s.heap.data.dropLast } else reheap s.heap) else s.heap }
+      heap := if th.st = 1 then (if shortcut2 s.heap then { s.heap with data := s.heap.data.dropLast } else reheap s.heap) else s.heap }
     adv2 (s1.modTh t (fun x => { x with pc := .p2Adv })) t
   | .release => { s.modTh t (fun x => { x with pc := .rdStatus }) with busy := 0 }
   | .rdStatus => s.modTh t (fun x => { x with pc := .idle, results := x.results ++ [resultOfCall x], nRet := x.nRet + 1 })
@@ -552,38 +663,5 @@ def parseOpAt (w : String) : Option (Op × Nat) :=
     | some x, some c => some (x, c)
     | _, _ => none
   | _ => none
-
-/-- driver state of `c13agg` -/
-structure DAgg where
-  s : St := {}
-  n : Nat := 0        -- number of threads declared
-
-def initHeap (xs : List Nat) : Heap := xs.foldl (fun h x => (handleOps h [.push x false]).heap) ⟨[], 0⟩
-
-open Proto in
-def driveAgg (d : DAgg) (ws : List String) : DAgg × String :=
-  match ws with
-  | "init" :: xs =>
-    match nats? xs with
-    | some xs => let h := initHeap xs; ({ d with s := { d.s with heap := h, mySize := h.data.length } }, showHeap h)
-    | none => (d, "bad-op")
-  | "thread" :: os =>
-    match os.mapM parseOpAt with
-    | some ops =>
-      let t := d.n
-      ({ s := d.s.modTh t (fun x => { x with todo := ops }), n := d.n + 1 }, s!"thread {t}")
-    | none => (d, "bad-op")
-  | ["s", t] =>
-    match nat? t with
-    | some t => if t < d.n then ({ d with s := aggStep d.s t }, describe d.s t) else (d, "bad-op")
-    | none => (d, "bad-op")
-  | ["results"] =>
-    (d, " | ".intercalate ((List.range d.n).map (fun t => " ".intercalate ((d.s.ths t).results.map showRes))))
-  | ["final"] => (d, showHeap d.s.heap)
-  | ["pcs"] => (d, " ".intercalate ((List.range d.n).map (fun t => reprStr (d.s.ths t).pc)))
-  | _ => (d, "bad-op")
-
-def driverAgg : Proto.Driver := { σ := DAgg, init := {}, step := driveAgg }
-
 
 end TbbVerif.C13
